@@ -36,26 +36,35 @@ class StubQueue:
 
 class ChoiceSet(set):
     """set whose pop() and iteration start are solver-enumerated (every result of select_blk /
-    pop that any hash order could produce is explored)."""
+    pop that any hash order could produce is explored).  budget: number of enumerated selection
+    points per simulator step; beyond it the order is the name order (stated in the bounds)."""
+    budget = [10 ** 9]
 
     def _order(self):
         return sorted(set.__iter__(self), key=lambda b: b.name)
 
+    def _choose(self, n, label):
+        if n <= 1 or self.budget[0] <= 0:
+            return 0
+        self.budget[0] -= 1
+        return core.cur().choose(n, label)
+
     def pop(self):
         items = self._order()
-        x = items[core.cur().choose(len(items), 'pop')]
+        x = items[self._choose(len(items), 'pop')]
         self.discard(x)
         return x
 
     def __iter__(self):
         items = self._order()
-        k = core.cur().choose(len(items), 'iter') if len(items) > 1 else 0
+        k = self._choose(len(items), 'iter')
         return iter(items[k:] + items[:k])
 
 
 class Driver:
-    def __init__(self, choice_sets=True):
+    def __init__(self, choice_sets=True, order_budget=10 ** 9):
         self.choice_sets = choice_sets
+        self.order_budget = order_budget
         self.circ = fresh_circuit()
         self.circ.sblock_queue = StubQueue()
         self.sim = None
@@ -77,6 +86,7 @@ class Driver:
         """step the simulator until it waits for a change; returns None or the exception raised"""
         if self.choice_sets:
             simulator.set = ChoiceSet
+            ChoiceSet.budget[0] = self.order_budget
         try:
             r = self.sim.send(None)
             assert r == 'IDLE', r
